@@ -92,6 +92,11 @@ def handle1 : List String → String
   | ["c08.rt", md, _splits, msgs] => rtOp md msgs
   -- the same stream through transport.NewTCP + mode.Detect over loopback: the model is the same function
   | ["c08.det", md, _splits, msgs] => rtOp md msgs
+  -- `c08.det` on a connection configured with another context / read timeout: the configuration is not an
+  -- argument of the model's reader, the answer is that of `c08.det`
+  | ["c08.cfg", ctx, t, md, _splits, msgs] =>
+    if !(["bg", "todo", "val", "detached", "own", "cancel", "child", "deadline"].contains ctx) then "bad-op" else
+    if t.isEmpty || t.length > 9 || !t.all Char.isDigit then "bad-op" else rtOp md msgs
   | ["c08.read", segs] =>
     match parseBytesList? segs with
     | some sg =>
